@@ -259,7 +259,9 @@ class Sym:
             return bool(self)
         if self.sort == "int":
             return ex.decide_value(self)
-        raise Unsupported("concretisation (int()/float()/hash()) of a symbolic real value")
+        # real-sorted values with finitely many feasible values (e.g. a ratio of counts); an infinite domain exhausts the
+        # enumeration budget and the obligation becomes undecided
+        return ex.decide_value(self)
 
     def __int__(self):
         v = self.concretize()
